@@ -11,6 +11,11 @@ from .core import callee_of, callee_names
 # access paths
 
 
+def _names_is(name, pat):
+    from . import names as _n
+    return _n.is_(name, pat)
+
+
 def norm_place(pj):
     """place JSON -> (local, path) with derefs dropped (references are transparent
     for value flow), fields by *name*, downcasts as ('v', Variant), indexing as '[]'."""
@@ -1309,6 +1314,12 @@ class Terms:
         for _ in range(12):
             if t and t["k"] == "call":
                 idxs = [j for j, a in enumerate(t["args"]) if a["k"] in ("copy", "move") and a["place"]["l"] in aliases]
+                if idxs == [0] and len(t["args"]) == 1 and t.get("t") is not None and any(_names_is(self.call_name(t), n_) for n_ in ("Option::as_mut", "Option::as_deref_mut")):
+                    # `opt.as_mut()`: the result holds a reference to the payload; a write through it (`if let Some(x) =
+                    # opt.as_mut() { *x = v }`) leaves Some(v) in the object, no write (or None) leaves it as it was
+                    r_ = self._through_as_mut(t, cb, prev, depth)
+                    if r_ is not None:
+                        return r_
                 if idxs:
                     others = tuple(self.operand(a, cb, "t", depth + 1) for j, a in enumerate(t["args"]) if j not in idxs)
                     return ("upd", self.call_name(t), prev, others)
@@ -1343,6 +1354,49 @@ class Terms:
             t = blk2["term"]
         # the borrow is consumed elsewhere (e.g. by an awaited call): the object is the same, its contents may differ
         return ("upd", "?", prev, ())
+
+    def _through_as_mut(self, t, cb, prev, depth):
+        d_l, d_p = norm_place(t["dest"])
+        if d_p != ():
+            return None
+        body = self.body
+        reach = body.reachable(t["t"], follow_yield_drop=False) | {t["t"]}
+        derived = {d_l}
+        changed = True
+        while changed:
+            changed = False
+            for b in reach:
+                blk = body.blocks[b]
+                if blk["cleanup"]:
+                    continue
+                for s2 in blk["stmts"]:
+                    if s2["k"] != "assign" or s2["rv"]["k"] not in ("use", "ref", "copyforderef", "cast"):
+                        continue
+                    src = s2["rv"].get("place") or (s2["rv"].get("op") or {}).get("place")
+                    if not src or src["l"] not in derived or s2["place"]["p"] or s2["place"]["l"] in derived:
+                        continue
+                    derived.add(s2["place"]["l"])
+                    changed = True
+        writes = []
+        for x in sorted(derived - {d_l}):
+            for site in self.rd.by_local.get(x, []):
+                l_, p_, kind_, payload_, strong_ = self.rd.sites[site]
+                if site[0] in reach and kind_ == "assign" and p_ == () and not strong_:
+                    writes.append((site, x))
+                elif site[0] in reach and ((kind_ == "assign" and p_ != ()) or kind_ == "mutref" or (kind_ == "call" and p_ != ())):
+                    return None   # written in a way this model does not follow
+        if not writes:
+            return prev
+        if len(writes) != 1:
+            return None
+        (wb, wi), x = writes[0]
+        qb, qi = getattr(self, "_query_point", None) or (None, None)
+        if qb is not None and not (qb == wb and isinstance(qi, int) and isinstance(wi, int) and qi > wi) and qb not in body.reachable(wb, follow_yield_drop=False):
+            return prev       # the query point is not after the write
+        stmt = body.blocks[wb]["stmts"][wi]
+        v = self._rvalue(stmt["rv"], wb, wi, depth + 1)
+        some = ("agg", "core::option::Option", "Some", (("0", v),))
+        return ("gamma", ("discr", prev, "Option"), ((("in", "0"), prev), (("in", "1"), some)))
 
     def _written_aliases(self, aliases, start_bb):
         """copies of a reference made in the blocks reachable from start_bb, and among all of them those that are written
